@@ -579,3 +579,82 @@ B('pkgA_merge_outer_list_filtered', ['C03', 'C04'], {'C03': 'R03.d', 'C04': 'R04
   (C, "    merged = list(new)\n", "    merged = [m for m in new if m.unique]\n"))
 B('pkgA_merge_result_truncated', ['C04'], 'R04.a',
   (C, "        merged.append(mw)\n    return merged", "        merged.append(mw)\n    while len(merged) > 16:\n        merged.pop()\n    return merged"))
+
+# ------------------------------------------------------------------ R04.a / R04.d: tables of slot / provides names, generators, chained iterables
+_PROV_LOOPS = ("        for arg in mw.provides:\n            provided_by[arg].append(mw)\n"
+               "        for arg in mw.endpoint_provides:\n            provided_by[arg].append(mw)\n"
+               "        for arg in mw.render_provides:\n            provided_by[arg].append(mw)\n")
+T('pkgA_twin_conflict_map_chained_provides', ['C04'],
+  (C, _PROV_LOOPS, "        mw_provides = itertools.chain(mw.provides, mw.endpoint_provides, mw.render_provides)\n"
+                   "        for arg in mw_provides:\n            provided_by[arg].append(mw)\n"),
+  (C, "    args_dict = args_dict or {}\n", ""),
+  (C, "    for source, arg_list in args_dict.items():", "    for source, arg_list in (args_dict or {}).items():"))
+B('pkgA_conflict_map_chained_provides_lacks_phase', ['C04'], 'R04.a',
+  (C, _PROV_LOOPS, "        mw_provides = itertools.chain(mw.provides, mw.render_provides)\n"
+                   "        for arg in mw_provides:\n            provided_by[arg].append(mw)\n"))
+_PROV_GEN = ("_MW_PROVIDES_NAMES = (%s)\n\n\n"
+             "def _iter_provides(mw):\n"
+             "    for provides_name in _MW_PROVIDES_NAMES:\n"
+             "        for arg in getattr(mw, provides_name):\n"
+             "            yield arg\n\n\n"
+             "def check_middlewares(")
+T('pkgA_twin_conflict_map_generator_over_table', ['C04'],
+  (C, _PROV_LOOPS, "        for arg in _iter_provides(mw):\n            provided_by[arg].append(mw)\n"),
+  (C, "def check_middlewares(", _PROV_GEN % "'provides', 'endpoint_provides', 'render_provides'"))
+B('pkgA_conflict_map_generator_table_lacks_phase', ['C04'], 'R04.a',
+  (C, _PROV_LOOPS, "        for arg in _iter_provides(mw):\n            provided_by[arg].append(mw)\n"),
+  (C, "def check_middlewares(", _PROV_GEN % "'provides', 'endpoint_provides'"))
+B('pkgA_conflict_map_generator_yields_conditionally', ['C04'], 'R04.a',
+  (C, _PROV_LOOPS, "        for arg in _iter_provides(mw):\n            provided_by[arg].append(mw)\n"),
+  (C, "def check_middlewares(", (_PROV_GEN % "'provides', 'endpoint_provides', 'render_provides'").replace(
+      "            yield arg\n", "            if not arg.startswith('_'):\n                yield arg\n")))
+_PHASE_TABLE = ("_PHASES = (('request', 'provides'), ('endpoint', 'endpoint_provides'), ('render', 'render_provides'))\n\n\n"
+                "def check_middlewares(")
+T('pkgA_twin_conflict_map_table_of_pairs', ['C04'],
+  (C, _PROV_LOOPS, "        for _phase_name, provides_attr in _PHASES:\n            for arg in getattr(mw, provides_attr):\n"
+                   "                provided_by[arg].append(mw)\n"),
+  (C, "def check_middlewares(", _PHASE_TABLE))
+B('pkgA_conflict_map_table_of_pairs_wrong_column', ['C04'], 'R04.a',
+  (C, _PROV_LOOPS, "        for provides_attr, _phase_name in _PHASES:\n            for arg in getattr(mw, provides_attr, ()) or ():\n"
+                   "                provided_by[arg].append(mw)\n"),
+  (C, "def check_middlewares(", _PHASE_TABLE))
+_SLOT_GEN = ("_SLOTS = (%s)\n\n\n"
+             "def _iter_slot_funcs(mw):\n"
+             "    for slot_name, _provides_attr in _SLOTS:\n"
+             "        func = getattr(mw, slot_name, None)\n"
+             "        if func:\n"
+             "            yield slot_name, func\n\n\n"
+             "def check_middleware(mw):\n"
+             "    for f_name, func in _iter_slot_funcs(mw):\n")
+_SLOT_OLD = ("def check_middleware(mw):\n"
+             "    for f_name in ('request', 'endpoint', 'render'):\n"
+             "        func = getattr(mw, f_name, None)\n"
+             "        if not func:\n"
+             "            continue\n")
+T('pkgA_twin_slots_generator_over_pairs', ['C04'],
+  (C, _SLOT_OLD, _SLOT_GEN % "('request', 'provides'), ('endpoint', 'endpoint_provides'), ('render', 'render_provides')"))
+B('pkgA_slots_generator_lacks_render', ['C04'], 'R04.d',
+  (C, _SLOT_OLD, _SLOT_GEN % "('request', 'provides'), ('endpoint', 'endpoint_provides')"))
+
+# ------------------------------------------------------------------ normaliser: f(a, *PAIR) with PAIR a module-level tuple of constants
+_SIG_HELPER = ("_REQUEST_PHASE = ('request', 'provides')\n_ENDPOINT_PHASE = (%s)\n_RENDER_PHASE = ('render', 'render_provides')\n\n\n"
+               "def _get_phase_signatures(middlewares, phase_name, provides_attr):\n"
+               "    sigs = [(getattr(mw, phase_name), getattr(mw, provides_attr))\n"
+               "            for mw in middlewares if getattr(mw, phase_name)]\n"
+               "    funcs, provides = list(zip(*sigs)) or ((), ())\n"
+               "    return funcs, provides\n\n\n"
+               "def make_middleware_chain(")
+_SIG_EDITS = (
+    (C, "    req_sigs = [(mw.request, mw.provides)\n                for mw in middlewares if mw.request]\n"
+        "    req_funcs, req_provides = list(zip(*req_sigs)) or ((), ())\n",
+        "    req_funcs, req_provides = _get_phase_signatures(middlewares, *_REQUEST_PHASE)\n"),
+    (C, "    ep_sigs = [(mw.endpoint, mw.endpoint_provides)\n               for mw in middlewares if mw.endpoint]\n"
+        "    ep_funcs, ep_provides = list(zip(*ep_sigs)) or ((), ())\n",
+        "    ep_funcs, ep_provides = _get_phase_signatures(middlewares, *_ENDPOINT_PHASE)\n"),
+    (C, "    rn_sigs = [(mw.render, mw.render_provides)\n               for mw in middlewares if mw.render]\n"
+        "    rn_funcs, rn_provides = list(zip(*rn_sigs)) or ((), ())\n",
+        "    rn_funcs, rn_provides = _get_phase_signatures(middlewares, *_RENDER_PHASE)\n"))
+T('pkgA_twin_phase_signatures_starred_constant_pairs', ALL4,
+  *(_SIG_EDITS + ((C, "def make_middleware_chain(", _SIG_HELPER % "'endpoint', 'endpoint_provides'"),)))
+B('pkgA_phase_signatures_starred_pairs_crossed', ['C01', 'C03'], {'C01': 'R01.d', 'C03': 'R03.d'},
+  *(_SIG_EDITS + ((C, "def make_middleware_chain(", _SIG_HELPER % "'endpoint', 'provides'"),)))
